@@ -56,8 +56,9 @@ class Dim:
             self.off = rnd.choice(OFFSETS)
             self.unit = rnd.choice([None, None, 's', 'ms', 'Hz', 'kHz', 'mV'])
             self.alen = 1 << 53
-        elif kind == 'R':
-            extra = 0 if consistent else rnd.choice([0, 0, 2, -1])
+        elif kind in ('R', 'A'):
+            # 'A' = alias range dimension of a 1-D array: its ticks are the array's own (strictly ascending) data
+            extra = 0 if (consistent or kind == 'A') else rnd.choice([0, 0, 2, -1])
             k = max(1, n + extra)
             style = rnd.choice(['uniform', 'int', 'tight', 'zero'])
             t = []
@@ -85,7 +86,7 @@ class Dim:
     def coord(self, i):
         if self.kind == 'S':
             return float(i) * self.dt + (self.off if self.off is not None else 0.0)
-        if self.kind == 'R':
+        if self.kind in ('R', 'A'):
             return self.ticks[i] if 0 <= i < len(self.ticks) else None
         return float(i)
 
@@ -96,8 +97,8 @@ class Dim:
         u = encs(self.unit) if self.unit else '-'
         if self.kind == 'S':
             return 'S %s %s %s' % (enc(self.dt), enc(self.off) if self.off is not None else '-', u)
-        if self.kind == 'R':
-            return 'R %d %s %s' % (len(self.ticks), ' '.join(enc(x) for x in self.ticks), u)
+        if self.kind in ('R', 'A'):
+            return '%s %d %s %s' % (self.kind, len(self.ticks), ' '.join(enc(x) for x in self.ticks), u)
         if self.kind == 'L':
             return 'L %d' % self.labels
         return 'F %d' % self.rows
@@ -224,6 +225,7 @@ def all_kind_combos():
     out = []
     for rank in (1, 2, 3):
         out += list(itertools.product(KINDS, repeat=rank))
+    out.append(('A',))          # 1-D array whose only dimension is an alias range dimension ("event times")
     return out
 
 
@@ -249,6 +251,8 @@ def feature_array(rnd, aid, ref, link, npos=None):
     a first dimension that (mostly) has one entry per position"""
     rank = rnd.choice([1, 2]) if link != 'tagged' else len(ref.shape)
     kinds = [rnd.choice(KINDS) for _ in range(rank)] if link != 'tagged' else [d.kind for d in ref.dims]
+    if rank == 1 and rnd.random() < (0.3 if link == 'tagged' else 0.1):
+        kinds = ['A']           # a feature array that describes its own axis (alias range dimension)
     shape = random_shape(rnd, rank)
     if link == 'indexed' and npos is not None:
         shape[0] = max(1, npos + rnd.choice([0, 0, 0, 1, -1]))
